@@ -203,10 +203,9 @@ func c12Lend(t *testing.T, rec *ev.Rec) {
 				cases = append(cases, pairedCase{name: "lend/close-lend", owner: owner, mk: func(a *sim.Acct) sdk.Msg { return lendtypes.NewMsgCloseLend(a.Addr.String(), id) }})
 			} else {
 				cases = append(cases, pairedCase{name: "lend/withdraw/exactly-available", owner: owner, mk: func(a *sim.Acct) sdk.Msg {
-					cur, _ := c.App.LendKeeper.GetLend(c.Ctx(), id)
-					amt := cur.AvailableToBorrow
-					if !amt.IsPositive() {
-						amt = sdk.NewInt(1)
+					amt := sdk.NewInt(1)
+					if cur, found := c.App.LendKeeper.GetLend(c.Ctx(), id); found && !cur.AvailableToBorrow.IsNil() && cur.AvailableToBorrow.IsPositive() {
+						amt = cur.AvailableToBorrow
 					}
 					return lendtypes.NewMsgWithdraw(a.Addr.String(), id, sdk.NewCoin(denom, amt))
 				}})
